@@ -118,12 +118,11 @@ open PyPrelude Model
 theorem pyMin_eq (a b : Int) : pyMin a b = min a b := by
   unfold pyMin; rw [Int.min_def]
 
-/-- the sector list of `get_number_conserving_wavefunction` is `fixedNSectors` (each with `norb` attached), and the
-    wavefunction is built with `broken=['spin']` -/
-theorem py_fixedN (nele norb : Int) :
-    get_number_conserving_wavefunction nele norb =
-      ((fixedNSectors nele norb).map (fun x => (x.1, x.2, norb)), ["spin"]) := by
-  unfold get_number_conserving_wavefunction fixedNSectors pyRange
+theorem paramN_eq (nele norb : Int) :
+    ([] ++ (pyRange (nele - pyMin norb nele) (pyMin norb nele + 1)).map
+        (fun nbeta => (nele, nele - nbeta * 2, norb)) : List (Int × Int × Int)) =
+      (fixedNSectors nele norb).map (fun x => (x.1, x.2, norb)) := by
+  unfold fixedNSectors pyRange
   simp only [pyMin_eq, List.nil_append, List.map_map]
   by_cases h : min norb nele < nele - min norb nele
   · have : (min norb nele + 1 - (nele - min norb nele)).toNat = 0 := by omega
@@ -132,29 +131,61 @@ theorem py_fixedN (nele norb : Int) :
     simp only [h, if_false, e, List.map_map]
     rfl
 
-/-- the sector list of `get_spin_conserving_wavefunction` is `fixedSzSectors`; the conditionally assigned locals are
-    always bound (the two tests are exhaustive), so the call never fails -/
-theorem py_fixedSz (sz norb : Int) :
-    get_spin_conserving_wavefunction sz norb =
-      some ((fixedSzSectors sz norb).map (fun x => (x.1, x.2, norb)), ["number"]) := by
-  unfold get_spin_conserving_wavefunction fixedSzSectors pyRange
+/-- the sector list of `get_number_conserving_wavefunction` is `fixedNSectors` (each with `norb` attached), the
+    wavefunction is built with `broken=['spin']`, and an impossible request (no sector) is refused -/
+theorem py_fixedN (nele norb : Int) :
+    get_number_conserving_wavefunction nele norb =
+      if (fixedNSectors nele norb).isEmpty then none
+      else some ((fixedNSectors nele norb).map (fun x => (x.1, x.2, norb)), ["spin"]) := by
+  unfold get_number_conserving_wavefunction
+  simp only []
+  rw [paramN_eq]
+  by_cases h : (fixedNSectors nele norb).isEmpty = true
+  · simp [h]
+  · simp [h]
+
+theorem paramSz_eq (sz norb : Int) :
+    ([] ++ (pyRange (if sz ≥ 0 then sz else 0) (if sz ≥ 0 then norb + 1 else norb + sz + 1)).map
+        (fun nalpha => (2 * nalpha - sz, sz, norb)) : List (Int × Int × Int)) =
+      (fixedSzSectors sz norb).map (fun x => (x.1, x.2, norb)) := by
+  unfold fixedSzSectors pyRange
   by_cases h : sz ≥ 0
-  · have h' : ¬ sz < 0 := by omega
-    simp only [h, h', decide_true, decide_false, if_true, Bool.true_or, Bool.not_true, Bool.false_eq_true, if_false,
-      List.nil_append, List.map_map]
+  · simp only [h, if_true, List.nil_append, List.map_map]
     by_cases g : norb + 1 ≤ sz
     · have : (norb + 1 - sz).toNat = 0 := by omega
       simp [g, this]
     · simp only [g, if_false, List.map_map]
       rfl
-  · have h' : sz < 0 := by omega
-    simp only [h, h', decide_true, decide_false, if_true, Bool.false_or, Bool.not_true, Bool.false_eq_true, if_false,
-      List.nil_append, List.map_map]
+  · simp only [h, if_false, List.nil_append, List.map_map]
     by_cases g : norb + sz + 1 ≤ 0
     · have : (norb + sz + 1 - 0).toNat = 0 := by omega
       simp [g, this]
     · simp only [g, if_false, List.map_map]
       rfl
+
+/-- the sector list of `get_spin_conserving_wavefunction` is `fixedSzSectors`; the conditionally assigned locals are
+    always bound (the two tests are exhaustive); an impossible request (no sector) is refused -/
+theorem py_fixedSz (sz norb : Int) :
+    get_spin_conserving_wavefunction sz norb =
+      if (fixedSzSectors sz norb).isEmpty then none
+      else some ((fixedSzSectors sz norb).map (fun x => (x.1, x.2, norb)), ["number"]) := by
+  unfold get_spin_conserving_wavefunction
+  have key := paramSz_eq sz norb
+  by_cases h : sz ≥ 0
+  · have h' : ¬ sz < 0 := by omega
+    simp only [h, if_true] at key
+    simp only [h, h', decide_true, decide_false, if_true, Bool.true_or, Bool.not_true, Bool.false_eq_true, if_false]
+    rw [key]
+    by_cases e : (fixedSzSectors sz norb).isEmpty = true
+    · simp [e]
+    · simp [e]
+  · have h' : sz < 0 := by omega
+    simp only [h, if_false] at key
+    simp only [h, h', decide_true, decide_false, if_true, Bool.false_or, Bool.not_true, Bool.false_eq_true, if_false]
+    rw [key]
+    by_cases e : (fixedSzSectors sz norb).isEmpty = true
+    · simp [e]
+    · simp [e]
 
 end GenPy
 
